@@ -3,6 +3,7 @@ package vsync
 
 import (
 	"sync"
+	"unsafe"
 
 	"verif/mc/sched"
 )
@@ -176,6 +177,7 @@ type Pool struct {
 	New   func() any
 	p     sync.Pool
 	items []any
+	token int // race-detector token: Put releases, Get acquires (sync.Pool's memory-model edge)
 }
 
 func (p *Pool) Get() any {
@@ -183,6 +185,7 @@ func (p *Pool) Get() any {
 		if n := len(p.items); n > 0 {
 			v := p.items[n-1]
 			p.items = p.items[:n-1]
+			sched.RaceAcquire(unsafe.Pointer(&p.token))
 			return v
 		}
 		if p.New != nil {
@@ -204,6 +207,7 @@ func (p *Pool) Put(x any) {
 		if len(p.items) == 0 {
 			sched.AtExecEnd(func() { p.items = nil })
 		}
+		sched.RaceRelease(unsafe.Pointer(&p.token))
 		p.items = append(p.items, x)
 		return
 	}
